@@ -177,11 +177,15 @@ def size_ties(scen):
 
 
 # ------------------------------------------------------------------ running both sides
-def run_both(ctx, scens, joint_key, rng=None, keep=None):
+def run_both(ctx, scens, joint_key=None, rng=None, keep=None):
     """returns list of (scen, obs, real_render, model_render)"""
     out = []
     lines = []
+    jk, rb = source_flags()
+    if joint_key is None:
+        joint_key = jk
     for scen in scens:
+        scen.setdefault('releaseBeforeBail', rb)
         d = Path(tempfile.mkdtemp(prefix='drv-', dir=ctx.scratch))
         try:
             obs = H.run_real(scen, d, rng=rng or ctx.rng)
@@ -194,11 +198,13 @@ def run_both(ctx, scens, joint_key, rng=None, keep=None):
     return out
 
 
-def joint_key_of_source():
-    """does run_pass key its replay table on all test cases?  (read from the generated constants)"""
-    from vlib import LEAN
-    p = LEAN / 'Cvise' / 'Gen' / 'Const.lean'
-    return 'def cacheKeyJoint : Bool := true' in p.read_text() if p.exists() else False
+def source_flags():
+    """what the translator reads off /repo's run_pass right now: (cacheKeyJoint, releaseBeforeBail)"""
+    import gen_model
+    from vlib import REPO
+    gen, _ = gen_model.generate(REPO)
+    c = gen['Const.lean']
+    return ('def cacheKeyJoint : Bool := true' in c, 'def releaseBeforeBail : Bool := true' in c)
 
 
 # ------------------------------------------------------------------ direct oracles (model independent)
@@ -286,3 +292,40 @@ def oracle_C08(scen, obs):
     if obs['tmp_left'] and not scen['cfg'].get('save_temps'):
         return 'temp-dir-left'
     return None
+
+
+# ------------------------------------------------------------------ the sweep shared by the driver-level checks
+def sweep(ctx, scens, oracles, diffs, nontrivial=None, label=None):
+    """run every scenario on both sides, record disagreements, judge the real observations with `oracles`
+    (list of (function(scen, obs) -> signature or None))"""
+    rows = run_both(ctx, scens)
+    for scen, obs, real, model in rows:
+        ctx.count()
+        if real != model:
+            diffs.append({'kind': 'drv', 'scenario': scen, 'real': real, 'model': model})
+        for orc in oracles:
+            sig = orc(scen, obs)
+            if sig:
+                ctx.report(sig, f'{sig}: outcome={obs["outcome"]} disk={obs["disk"]} log={obs["log"]}',
+                           {'kind': 'drv', 'scenario': scen, 'observed': real})
+        if nontrivial:
+            key = nontrivial(scen, obs)
+            if key is not None:
+                ctx.nontrivial(key)
+    return rows
+
+
+def scen_key(scen):
+    return hashlib.sha1(json.dumps(scen, sort_keys=True, default=str).encode()).hexdigest()[:12]
+
+
+def replay_drv(ctx, obj, oracles):
+    scen = obj['scenario']
+    d = Path(tempfile.mkdtemp(prefix='drv-', dir=ctx.scratch))
+    obs = H.run_real(scen, d, rng=ctx.rng)
+    print('observed:', H.render_obs(scen, obs))
+    for orc in oracles:
+        sig = orc(scen, obs)
+        if sig:
+            ctx.report(sig, sig, {'kind': 'drv', 'scenario': scen})
+    print('replayed ->', 'fails' if ctx.violations or ctx.known_hits else 'holds')
